@@ -442,12 +442,16 @@ def project(res, variant, selfcheck=False, stopwdog=False):
     o = case["opts"]
     L = ["init %s %d %d %d %d %d %d" % (variant, case["fanout"], o["ct"], o["ut"], o["sopt"], 1 if selfcheck else 0,
                                         1 if stopwdog else 0)]
+    if o.get("k"):
+        L.append("kopt 1")
     for b in case["behaviours"]:
         life = b.get("life", 0)
         L.append("host %s %d %s %s %s %s" % (b["conn"][0], b["conn"][1] if len(b["conn"]) > 1 else 0,
                                               items_text(b, "out"), items_text(b, "err"),
                                               "-" if life < 0 else life,
                                               "-" if b.get("ignoreterm") else b.get("termgrace", 0)))
+        if o.get("k") and b.get("rc", 0) > 0 and b["conn"][0] == "ok":
+            L.append("nz")
     L.append("go")
     n = len(case["hosts"])
     got = [[0, 0] for _ in range(n)]
@@ -526,6 +530,8 @@ def project(res, variant, selfcheck=False, stopwdog=False):
             L.append(obs(i))
         elif th.startswith("W") and e == "connectBegin":
             hit[int(th[1:])] = False
+        if th.startswith("W") and any(t[0] == th and t[1] == "exit" for t in by_step.get(k, [])):
+            L.append("ev %s abort" % th)          # -k: the worker forwarded SIGTERM and called exit()
     status = (res["M"] or {}).get("status", "crash")
     if status == "deadlock" and res.get("last_S"):
         s = res["last_S"]
